@@ -1,6 +1,7 @@
 package rules
 
 import (
+	"fmt"
 	"go/token"
 	"go/types"
 	"strings"
@@ -131,11 +132,35 @@ func ruleSummaryRendering(c *Ctx, rule string) {
 		}
 		return "param:?"
 	}
+	// the table as the render functions see it: the global itself, or a parameter that receives it at every call site
+	tableNames := []string{tableAP}
+	for _, fn := range renderFuncs {
+		for _, p := range fn.Params {
+			args := argsOfParam(p)
+			all := len(args) > 0
+			for _, av := range args {
+				if an.AP(av) != tableAP {
+					all = false
+				}
+			}
+			if all {
+				tableNames = append(tableNames, "param:"+p.Name())
+			}
+		}
+	}
+	rangesTable := func(t string, idx int) bool {
+		for _, tn := range tableNames {
+			if strings.Contains(t, fmt.Sprintf("extract<%d>(next(range(%s)))", idx, tn)) {
+				return true
+			}
+		}
+		return false
+	}
 	for _, fn := range renderFuncs {
 		an.AllInstrs(fn, func(in ssa.Instruction) {
 			if call, ok := builtinCall(in, "append"); ok {
 				t := c.O.Of(call.Args[len(call.Args)-1]).String()
-				if strings.Contains(t, "extract<1>(next(range("+tableAP+")))") {
+				if rangesTable(t, 1) {
 					keep = in
 				}
 			}
@@ -156,8 +181,8 @@ func ruleSummaryRendering(c *Ctx, rule string) {
 				bit := c.O.Of(and.Y).String()
 				idx := c.O.Of(and.X).String()
 				ip := intParam(keep.Parent())
-				if !(strings.Contains(bit, "extract<2>(next(range("+tableAP+")))") && idx == ip) &&
-					!(strings.Contains(idx, "extract<2>(next(range("+tableAP+")))") && bit == ip) {
+				if !(rangesTable(bit, 2) && idx == ip) &&
+					!(rangesTable(idx, 2) && bit == ip) {
 					return false
 				}
 				other := c.O.Of(bo.Y).String()
@@ -166,8 +191,11 @@ func ruleSummaryRendering(c *Ctx, rule string) {
 					if other == "0" {
 						return !truth
 					}
-					return truth && strings.Contains(other, "extract<2>(next(range("+tableAP+")))")
-				case token.NEQ:
+					return truth && rangesTable(other, 2)
+				case token.NEQ: // index&bit != 0 (true)  |  index&bit != bit (false)
+					if rangesTable(other, 2) {
+						return !truth
+					}
 					return other == "0" && truth
 				case token.GTR:
 					return other == "0" && truth
@@ -203,17 +231,24 @@ func ruleSummaryRendering(c *Ctx, rule string) {
 		}
 		c.R.Add(rule, rd.key, "reads:memo[summary(recv)]."+rd.field, c.P.Pos(f.Pos()), good, ifelse(good, "returns the ."+rd.field+" of the memo entry of the receiver's own summary", rd.key+" does not return the rendered entry of the receiver's own summary"))
 	}
-	rt := c.P.MustFunc("tree.(*node).routes")
-	goodRt := false
-	an.AllInstrs(rt, func(in ssa.Instruction) {
-		if mu, ok := in.(*ssa.MapUpdate); ok {
-			if _, isParam := mu.Map.(*ssa.Parameter); isParam {
-				node, field, ok := c.memoEntryField(mu.Value, 0)
-				goodRt = ok && node == "recv" && field == "methods"
-			}
+	goodRt, nRt := true, 0
+	var rtAt ssa.Instruction
+	for _, mu := range routesListers(c) {
+		nRt++
+		rtAt = mu
+		key := c.O.Of(mu.Key).String()
+		want := strings.TrimSuffix(key, "."+c.A.FPattern)
+		want = strings.Replace(want, "param:", "p:", 1)
+		node, field, ok := c.memoEntryField(mu.Value, 0)
+		if !(ok && field == "methods" && (node == want || node == "recv" && want == "recv")) {
+			goodRt = false
 		}
-	})
-	c.R.Add(rule, c.fk(rt), "lists:memo[summary(recv)].methods", c.P.Pos(rt.Pos()), goodRt, ifelse(goodRt, "Routes() lists the rendered method list of the node's own summary", "Routes() does not list the rendered method list of the node's own summary: it can disagree with the Allow header"))
+	}
+	if nRt == 0 {
+		c.R.Add(rule, c.fk(c.A.TreeRoutes), "lists:memo[summary(recv)].methods", c.P.Pos(c.A.TreeRoutes.Pos()), false, "Routes() lists nothing")
+	} else {
+		c.R.Add(rule, c.fk(rtAt.Parent()), "lists:memo[summary(recv)].methods", c.P.Pos(rtAt.Parent().Pos()), goodRt, ifelse(goodRt, "Routes() lists the rendered method list of the node's own summary", "Routes() does not list the rendered method list of the node's own summary: it can disagree with the Allow header"))
+	}
 }
 
 // elemIndexOf returns the index value of a range-loop element load.
